@@ -339,7 +339,7 @@ def teardown(ctx):
         inp, outp = os.path.join(tmp, f"in{int(rev)}.json"), os.path.join(tmp, f"out{int(rev)}.json")
         with open(inp, "w") as fh:
             json.dump({"seed": ctx.seed, "pairs": pairs, "reverse": rev}, fh)
-        procs.append((subprocess.Popen([harness.PY, "-B", "-m", "vf.props.c15", "--pristine", inp, outp], stdout=subprocess.DEVNULL, stderr=subprocess.PIPE, cwd=harness.VERIF), outp))
+        procs.append((subprocess.Popen([harness.PY, "-B"] + harness.own_flags() + ["-m", "vf.props.c15", "--pristine", inp, outp], stdout=subprocess.DEVNULL, stderr=subprocess.PIPE, cwd=harness.VERIF), outp))
     for p, outp in procs:
         try:
             _, err = p.communicate(timeout=900)
